@@ -3,6 +3,8 @@ C12 property theorems: Mangle membership.  Helper lemmas first (sections
 "helpers"), the property theorems listed in harness/props/c12.py after them.
 -/
 import PydlVerif.Model.Mangle
+import PydlVerif.Model.MangleExt
+import PydlVerif.Lemmas.ManglePly
 import PydlVerif.Lemmas.RealTrig
 import Mathlib.Data.Nat.Bitwise
 namespace PydlVerif.C12
@@ -652,6 +654,51 @@ theorem cap_centre_inside (c : Cap ℝ) (hc : c.x * c.x + c.y * c.y + c.z * c.z 
   rw [clip_dot_unit c c.x c.y c.z hc hc]
   linarith
 
+/-! ### circle_cap -/
+
+theorem radians_real (r : ℝ) : radians r = r * (Real.pi / 180) := by
+  unfold radians
+  simp only [scalar_lit]
+  norm_num
+  left; rfl
+
+/-- `circle_cap(r, p)` (0 ≤ r ≤ 180 degrees) contains exactly the points whose angular separation from `p`
+(`arccos` of the clipped dot product; the dot product itself for unit vectors, `clip_dot_unit`) is at most `r` degrees
+(`radians r = r·π/180`, `radians_real`); Cartesian and RA/Dec input alike, for the centre as for the points -/
+theorem circle_cap_within (r : ℝ) (p q : Point ℝ) (h0 : 0 ≤ r) (h1 : r ≤ 180) :
+    isInCap (circleCap r p) q = true ↔ Real.arccos (clip1 (dot q.toXyz (circleCap r p))) ≤ radians r := by
+  have hrad := radians_real r
+  have hr0 : 0 ≤ radians r := by rw [hrad]; positivity
+  have hrpi : radians r ≤ Real.pi := by rw [hrad]; nlinarith [Real.pi_pos]
+  have hcm : (circleCap r p).cm = 1 - Real.cos (radians r) := by
+    simp only [circleCap, scalar_lit, Nat.cast_one]
+    rfl
+  have hc1 := Real.cos_le_one (radians r)
+  have hc2 := Real.neg_one_le_cos (radians r)
+  rw [cap_formula _ q (by rw [hcm]; linarith) (by rw [hcm]; linarith), hcm]
+  have hm := clip1_mem (dot q.toXyz (circleCap r p))
+  constructor
+  · intro h
+    have hle : Real.cos (radians r) ≤ clip1 (dot q.toXyz (circleCap r p)) := by linarith
+    calc Real.arccos (clip1 (dot q.toXyz (circleCap r p))) ≤ Real.arccos (Real.cos (radians r)) :=
+          Real.arccos_le_arccos hle
+      _ = radians r := Real.arccos_cos hr0 hrpi
+  · intro h
+    have := Real.cos_le_cos_of_nonneg_of_le_pi (Real.arccos_nonneg _) hrpi h
+    rw [Real.cos_arccos hm.1 hm.2] at this
+    linarith
+
+/-- the centre of `circle_cap(r, p)` is `p` itself (as a Cartesian vector) and `cm = 1 - cos r` lies in [0, 2] -/
+theorem circle_cap_fields (r : ℝ) (p : Point ℝ) :
+    ((circleCap r p).x, (circleCap r p).y, (circleCap r p).z) = p.toXyz ∧
+    0 ≤ (circleCap r p).cm ∧ (circleCap r p).cm ≤ 2 := by
+  have hcm : (circleCap r p).cm = 1 - Real.cos (radians r) := by
+    simp only [circleCap, scalar_lit, Nat.cast_one]
+    rfl
+  have hc1 := Real.cos_le_one (radians r)
+  have hc2 := Real.neg_one_le_cos (radians r)
+  refine ⟨rfl, by rw [hcm]; linarith, by rw [hcm]; linarith⟩
+
 end real
 
 /-! ## non-vacuity: the hypotheses are met by concrete inputs -/
@@ -674,6 +721,239 @@ example : isInCap (⟨0, 0, 1, 1⟩ : Cap ℝ) (.xyz 0 0 1) = true :=
   cap_centre_inside ⟨0, 0, 1, 1⟩ (by norm_num) (by norm_num) (by norm_num)
 
 end examples
+
+
+/-! ## The Mangle ASCII polygon format (`read_mangle_polygons`, model `Model/ManglePly.lean`, lemmas `Lemmas/ManglePly.lean`) -/
+section ply
+open PydlVerif.ManglePly
+variable {α : Type}
+
+/-- the polygon the window functions see: `ncaps`, `use_caps = (1 << ncaps) - 1`, the caps -/
+def plyToPolygon (P : PlyPoly α) : Polygon α :=
+  { ncaps := P.ncaps, useCaps := P.useCaps, rows := P.rows.map fun c => ⟨c.x, c.y, c.z, c.cm⟩ }
+
+theorem ply_polygon_wf (P : PlyPoly α) : wfPoly (plyToPolygon P) := by
+  simp [wfPoly, plyToPolygon, PlyPoly.ncaps]
+
+/-- the reader's use-mask selects exactly the caps of the file: bit i set iff i < ncaps -/
+theorem ply_use_caps_all (P : PlyPoly α) (i : Nat) : P.useCaps.testBit i = true ↔ i < P.ncaps := by
+  simp [PlyPoly.useCaps, PlyPoly.ncaps, Nat.testBit_two_pow_sub_one, Nat.shiftLeft_eq]
+
+/-- (a) ROUND TRIP, on the lexed form of the canonical file (`N polygons`, any keyword lines, per polygon the header with
+caps / weight / pixel / optional str and one line per cap): for ANY number of polygons with ANY caps, weights, pixels, areas
+the reader returns exactly the keyword lines and the polygon list (ids, weights, pixels, str, every cap; `ncaps` and the all-caps
+mask are functions of the caps).  Only hypotheses: `float(text)` reads back what the writer wrote (`hF`), Python's `int`
+reads back the integers that occur (`hI`, `h0`), and every polygon has at least one cap (`hne`; see `ply_zero_caps_refused`). -/
+theorem ply_roundtrip_lex (parseF : List Char → Option α) (one : α) (fmtF : α → List Char) (fmtI : Int → List Char)
+    (hF : ∀ x, parseF (fmtF x) = some x) (kw : List (List Char)) (polys : List (PlyPoly α))
+    (hI : ∀ P ∈ polys, IntsOk fmtI P) (hne : ∀ P ∈ polys, P.rows ≠ []) (hp : polys ≠ [])
+    (h0 : (pyInt (fmtI (Int.ofNat polys.length))).isSome) :
+    parseLex parseF one (canonLex fmtF fmtI kw polys) = .ok (kw, polys) :=
+  parseLex_canon parseF one fmtF fmtI hF kw polys hI hne hp h0
+
+/-- (a) on the characters of the file.  FULL STATEMENT WANTED: `parsePly (renderPly kw polys) = ok (kw, polys)` from `hF`, `hI`,
+`hne` and "number texts contain no whitespace, comma, parenthesis and do not begin with `polygon`".  PROVED here with the
+lexical step as the explicit hypothesis `hlex` (the hand-written scanners `strip` / `split` / `r1` / `split(',')` applied to the
+rendered text give the canonical lexed lines); `hlex` is checked by evaluation for concrete files below and, for every
+generated file of every run, by the `plylex` stream against Python's own `str` / `re`. -/
+theorem ply_roundtrip_partial (parseF : List Char → Option α) (one : α) (fmtF : α → List Char) (fmtI : Int → List Char)
+    (hF : ∀ x, parseF (fmtF x) = some x) (kw : List (List Char)) (polys : List (PlyPoly α))
+    (hI : ∀ P ∈ polys, IntsOk fmtI P) (hne : ∀ P ∈ polys, P.rows ≠ []) (hp : polys ≠ [])
+    (h0 : (pyInt (fmtI (Int.ofNat polys.length))).isSome)
+    (hlex : lexFile (renderPly fmtF fmtI kw polys) = canonLex fmtF fmtI kw polys) :
+    parsePly parseF one (renderPly fmtF fmtI kw polys) = .ok (kw, polys) := by
+  unfold parsePly
+  rw [hlex]
+  exact parseLex_canon parseF one fmtF fmtI hF kw polys hI hne hp h0
+
+/-- (b) membership is format independent end to end: window lookup over the polygons READ from the text equals window lookup
+over the polygons themselves, and equals the lookup over the same polygons stored as FITS rows with padding
+(`window_formats_agree`).  Same lexical hypothesis as `ply_roundtrip_partial`. -/
+theorem ply_window_format_independent_partial [Trig α] (parseF : List Char → Option α) (one : α) (fmtF : α → List Char)
+    (fmtI : Int → List Char) (hF : ∀ x, parseF (fmtF x) = some x) (kw : List (List Char)) (polys : List (PlyPoly α))
+    (hI : ∀ P ∈ polys, IntsOk fmtI P) (hne : ∀ P ∈ polys, P.rows ≠ []) (hp : polys ≠ [])
+    (h0 : (pyInt (fmtI (Int.ofNat polys.length))).isSome)
+    (hlex : lexFile (renderPly fmtF fmtI kw polys) = canonLex fmtF fmtI kw polys)
+    (pts : List (Point α)) (ncaps : Int) :
+    (match parsePly parseF one (renderPly fmtF fmtI kw polys) with
+     | .ok r => isInWindow (r.2.map plyToPolygon) pts ncaps
+     | .error e => .error e) = isInWindow (polys.map plyToPolygon) pts ncaps ∧
+    isInWindow ((polys.map plyToPolygon).map ofRecord) pts ncaps = isInWindow (polys.map plyToPolygon) pts ncaps := by
+  rw [ply_roundtrip_partial parseF one fmtF fmtI hF kw polys hI hne hp h0 hlex]
+  refine ⟨rfl, window_formats_agree _ pts ncaps ?_⟩
+  intro P hP
+  obtain ⟨Q, _, rfl⟩ := List.mem_map.1 hP
+  exact ply_polygon_wf Q
+
+/-- (c) malformed first line: the first word is not an integer literal -> `PydlutilsException` (and nothing is parsed) -/
+theorem ply_bad_first_line (parseF : List Char → Option α) (one : α) (l0 : LexLine) (rest : List LexLine) (t : List Char)
+    (ts : List (List Char)) (hraw : l0.raw.isEmpty = false) (ht : l0.toks = t :: ts) (hint : pyInt t = none) :
+    parseLex parseF one (l0 :: rest) = .error "PydlutilsException" :=
+  parseLex_bad_first parseF one l0 rest t ts hraw ht hint
+
+/-- (c) an empty file or an empty first line: `IndexError` -/
+theorem ply_no_first_line (parseF : List Char → Option α) (one : α) (l0 : LexLine) (rest : List LexLine)
+    (hraw : l0.raw.isEmpty = true) :
+    parseLex parseF one ([] : List LexLine) = .error "IndexError" ∧ parseLex parseF one (l0 :: rest) = .error "IndexError" :=
+  parseLex_no_first parseF one l0 rest hraw
+
+/-- (c) cap count: whatever the per-polygon step accepts has EXACTLY the announced number of caps, every cap is a line present
+in the file behind the header, and there is at least one.  Hence: announced count ≠ lines read, announced count larger than
+the lines left in the file, a negative or zero count -> refused. -/
+theorem ply_count_mismatch_refused (parseF : List Char → Option α) (one : α) (lines : List LexLine) (p : Nat) (P : PlyPoly α)
+    (h : parseBlock parseF one lines p = .ok P) :
+    announced parseF lines p = some (Int.ofNat P.rows.length) ∧ p + 1 + P.rows.length ≤ lines.length ∧ 1 ≤ P.rows.length :=
+  parseBlock_count parseF one lines p P h
+
+/-- (c) in particular a header that announces more caps than there are lines left in the file is refused -/
+theorem ply_missing_rows_refused (parseF : List Char → Option α) (one : α) (lines : List LexLine) (p : Nat) (caps : Int)
+    (ha : announced parseF lines p = some caps) (hmore : Int.ofNat lines.length < Int.ofNat (p + 1) + caps) :
+    ∀ P, parseBlock parseF one lines p ≠ .ok P := by
+  intro P h
+  obtain ⟨h1, h2, _⟩ := parseBlock_count parseF one lines p P h
+  rw [ha] at h1
+  simp only [Option.some.injEq] at h1
+  subst h1
+  simp only [Int.ofNat_eq_natCast] at hmore
+  omega
+
+/-- (c) a zero-cap polygon in a `.ply` file is refused by the reader (`np.array([]).shape == (0,)`, the assert wants `(0, 3)`) -/
+theorem ply_zero_caps_refused (parseF : List Char → Option α) (one : α) (lines : List LexLine) (p : Nat)
+    (ha : announced parseF lines p = some 0) : ∀ P, parseBlock parseF one lines p ≠ .ok P := by
+  intro P h
+  obtain ⟨h1, _, h3⟩ := parseBlock_count parseF one lines p P h
+  rw [ha] at h1
+  simp only [Option.some.injEq, Int.ofNat_eq_natCast] at h1
+  omega
+
+end ply
+
+/-! ## add_caps / polyn / copy -/
+section ext
+variable {α : Type} [Trig α]
+
+theorem useNcaps_lt_iff (a k : Nat) (n : Int) (i : Nat) (hi : i < a) :
+    i < useNcaps (a + k) n ↔ i < useNcaps a n := by
+  by_cases h : n > 0 <;> simp only [useNcaps, h, if_true, if_false] <;> omega
+
+theorem useNcaps_le' (a : Nat) (n : Int) : useNcaps a n ≤ a := by
+  by_cases h : n > 0 <;> simp only [useNcaps, h, if_true, if_false] <;> omega
+
+/-- `add_caps`: the caps are appended and stored, but the use-mask is kept, so (for a mask without bits beyond the old
+`ncaps`, which every reader and `set_use_caps` produce) membership is UNCHANGED until `set_use_caps` selects the new caps -/
+theorem add_caps_membership (P : Polygon α) (new : List (Cap α)) (hx : P.rows.length = P.ncaps)
+    (hu : P.useCaps < 2 ^ P.ncaps) (n : Int) (p : Point α) :
+    ∃ Q, addCaps P new = .ok Q ∧ Q.ncaps = P.ncaps + new.length ∧ Q.rows = P.rows ++ new ∧ Q.useCaps = P.useCaps ∧
+      wfPoly Q ∧ inP n Q p = inP n P p := by
+  refine ⟨{ ncaps := P.ncaps + new.length, useCaps := P.useCaps, rows := P.rows ++ new }, by rw [addCaps, if_pos hx],
+    rfl, rfl, rfl, by simp [wfPoly, hx], ?_⟩
+  have hbit : ∀ i, P.ncaps ≤ i → P.useCaps.testBit i = false := fun i hi =>
+    Nat.testBit_lt_two_pow (Nat.lt_of_lt_of_le hu (Nat.pow_le_pow_right (by norm_num) hi))
+  rw [Bool.eq_iff_iff, inP, inP, inPolyPt_iff, inPolyPt_iff]
+  simp only []
+  constructor
+  · intro h i hi hb c hc
+    have hin : i < P.ncaps := Nat.lt_of_lt_of_le hi (useNcaps_le' _ _)
+    refine h i ((useNcaps_lt_iff _ _ n i hin).2 hi) hb c ?_
+    · rw [List.getElem?_append_left (by omega)]; exact hc
+  · intro h i hi hb c hc
+    have hin : i < P.ncaps := by
+      by_contra hcon
+      rw [hbit i (by omega)] at hb
+      exact Bool.false_ne_true hb
+    refine h i ((useNcaps_lt_iff _ _ n i hin).1 hi) hb c ?_
+    · rw [List.getElem?_append_left (by omega)] at hc; exact hc
+
+/-- once the new caps are selected as well (`use_caps` = old mask plus the bits `ncaps .. ncaps+k-1`), membership in the
+polygon built by `add_caps` is the AND of the old polygon and every new cap: the intersection -/
+theorem add_caps_selected_and (P : Polygon α) (new : List (Cap α)) (hx : P.rows.length = P.ncaps)
+    (hu : P.useCaps < 2 ^ P.ncaps) (u : Nat)
+    (hsel : ∀ i, u.testBit i = (P.useCaps.testBit i || (decide (P.ncaps ≤ i) && decide (i < P.ncaps + new.length))))
+    (p : Point α) :
+    inP 0 { ncaps := P.ncaps + new.length, useCaps := u, rows := P.rows ++ new } p =
+      (inP 0 P p && new.all fun c => isInCap c p) := by
+  have hbit : ∀ i, P.ncaps ≤ i → P.useCaps.testBit i = false := fun i hi =>
+    Nat.testBit_lt_two_pow (Nat.lt_of_lt_of_le hu (Nat.pow_le_pow_right (by norm_num) hi))
+  rw [Bool.eq_iff_iff, Bool.and_eq_true, inP, inP, inPolyPt_iff, inPolyPt_iff, List.all_eq_true]
+  simp only [useNcaps, show ¬ ((0 : Int) > 0) by omega, if_false]
+  constructor
+  · intro h
+    refine ⟨fun i hi hb c hc => h i (by omega) (by rw [hsel, hb]; rfl) c
+      (by rw [List.getElem?_append_left (by omega)]; exact hc), fun c hc => ?_⟩
+    obtain ⟨j, hj, rfl⟩ := List.getElem_of_mem hc
+    refine h (P.ncaps + j) (by omega) (by rw [hsel]; simp; omega) _ ?_
+    rw [List.getElem?_append_right (by omega)]
+    simp [hx, hj]
+  · rintro ⟨h1, h2⟩ i hi hb c hc
+    by_cases hin : i < P.ncaps
+    · rw [List.getElem?_append_left (by omega)] at hc
+      rw [hsel] at hb
+      have : P.useCaps.testBit i = true := by
+        simpa [show ¬ (P.ncaps ≤ i) by omega] using hb
+      exact h1 i hin this c hc
+    · rw [List.getElem?_append_right (by omega)] at hc
+      exact h2 c (List.mem_of_getElem? hc)
+
+/-- one-cap FITS tables (scalar `XCAPS` / `CMCAPS` columns; the D20 case): the converted polygon keeps NCAPS, USE_CAPS and the
+single stored cap (`hz`: adding it to the zero array returns it - every real, every float but -0.0, which becomes 0.0)
+- also when NCAPS = 0, where the general branch (`record_take`) would keep no cap; for NCAPS = 1 both
+branches agree, and in every case window lookup over the converted rows equals lookup over the raw rows -/
+theorem record_scalar (P : Polygon α) (c : Cap α) (h : P.rows = [c])
+    (hz : (0 : α) + c.x = c.x ∧ (0 : α) + c.y = c.y ∧ (0 : α) + c.z = c.z ∧ (0 : α) + c.cm = c.cm) :
+    ofRecordScalar P = .ok P ∧ (P.ncaps = 1 → ofRecord P = P) ∧ (wfPoly P ↔ P.ncaps ≤ 1) := by
+  obtain ⟨n, u, rows⟩ := P
+  simp only at h
+  subst h
+  obtain ⟨c1, c2, c3, c4⟩ := c
+  simp only at hz
+  refine ⟨by simp only [ofRecordScalar, hz.1, hz.2.1, hz.2.2.1, hz.2.2.2], ?_, by simp [wfPoly]⟩
+  intro h1
+  simp only at h1
+  subst h1
+  rfl
+
+/-- `polyn(other, n, complement)` appends cap `n` of `other` (sign flipped for `complement`) and is refused
+(`IndexError`) exactly when `other` has no such cap -/
+theorem polyn_spec (P other : Polygon α) (n : Nat) (compl : Bool) :
+    (other.rows[n]? = none → polyn P other n compl = .error "IndexError") ∧
+    (∀ c, other.rows[n]? = some c →
+      polyn P other n compl = addCaps P [{ c with cm := (if compl then -1 else 1) * c.cm }]) := by
+  constructor
+  · intro h; simp [polyn, h]
+  · intro c h; simp [polyn, h]
+
+end ext
+
+section plyExamples
+open PydlVerif.ManglePly
+
+/-- a toy number type with a text form that reads back: the hypotheses of the round trip are satisfiable -/
+def exFmtF (b : Bool) : List Char := if b then ['1', '.', '5', 'e', '-', '3'] else ['-', '0', '.', '2', '5']
+def exParseF (t : List Char) : Option Bool :=
+  if t = ['1', '.', '5', 'e', '-', '3'] then some true else if t = ['-', '0', '.', '2', '5'] then some false else none
+def exFmtI (i : Int) : List Char := (toString i).toList
+def exPolys : List (PlyPoly Bool) :=
+  [{ id := 7, weight := true, pixel := -1, str := some false, rows := [⟨true, false, false, true⟩, ⟨false, false, true, false⟩] },
+   { id := 12, weight := false, pixel := 305, str := none, rows := [⟨false, true, true, true⟩] }]
+def exKw : List (List Char) := ["snapped".toList, "pixelization 6s".toList]
+
+example : ∀ x, exParseF (exFmtF x) = some x := by decide
+example : ∀ P ∈ exPolys, IntsOk exFmtI P := by
+  intro P hP
+  simp only [exPolys, List.mem_cons, List.not_mem_nil, or_false] at hP
+  rcases hP with rfl | rfl <;> (unfold IntsOk; decide)
+example : ∀ P ∈ exPolys, P.rows ≠ [] := by decide
+/-- the lexical hypothesis `hlex` holds for this file: the scanners turn the rendered characters into the canonical lines -/
+example : lexFile (renderPly exFmtF exFmtI exKw exPolys) = canonLex exFmtF exFmtI exKw exPolys := by decide
+/-- and the whole reader, run on the characters, returns the polygons -/
+example : parsePly exParseF true (renderPly exFmtF exFmtI exKw exPolys) = .ok (exKw, exPolys) := by decide
+/-- refusals are met by concrete files -/
+example : parsePly exParseF true "x polygons\n".toList = .error "PydlutilsException" := by decide
+example : parsePly exParseF true "1 polygons\npolygon 0 ( 2 caps, 1.5e-3 weight):\n 1.5e-3 -0.25 -0.25 1.5e-3\n".toList
+    = .error "AssertionError" := by decide
+example : parsePly exParseF true "1 polygons\npolygon 0 ( 0 caps, 1.5e-3 weight):\n".toList = .error "AssertionError" := by decide
+
+end plyExamples
 
 /-- the literals of the real-number statements are the ordinary real numbers (checked outside the
 section that installs the model's literal instances) -/
